@@ -914,6 +914,10 @@ func loadsOnlyIn(al *ssa.Alloc, lp *loopInfo) bool {
 // sorterHolds: v is (a pointer to) a freshly built struct one of whose fields was assigned the parameter prm, and the
 // struct's Swap method stores into elements of that field: sorting the object sorts the parameter's elements in place.
 func sorterHolds(v ssa.Value, prm *ssa.Parameter) bool {
+	// the sorter object, by pointer or (a composite literal) by value
+	if ld, isLoad := v.(*ssa.UnOp); isLoad && ld.Op == token.MUL {
+		v = ld.X
+	}
 	al, ok := v.(*ssa.Alloc)
 	if !ok {
 		return false
@@ -958,6 +962,12 @@ func sorterHolds(v ssa.Value, prm *ssa.Parameter) bool {
 				if ia, ok := st.Addr.(*ssa.IndexAddr); ok {
 					if fld, _ := loadOfField(ia.X); fld == held {
 						swaps = true
+					}
+					// value receiver: the field is read from the receiver value
+					if fv, ok := ia.X.(*ssa.Field); ok {
+						if fld, _ := fieldOfVal(fv); fld == held {
+							swaps = true
+						}
 					}
 				}
 			}
